@@ -32,7 +32,7 @@ EXPECT_CFG = {'big': (None, 32, 0), 'u8': (1, 32, 0), 'i16': (2, 32, 0), 'u32': 
 CORNER_X = [   # the operations added by the coverage audit
     'n n w0,1 n', 'n n n w2,0 w0,1 n n', 'n n y0,1 d0 d0 n', 'n m0 w0,0 d0', 'n n m0 y0,1 m1 w1,0 n',
     'n d0 v n d0 v c', 'n a0 n v x0 d0 v d0 n', 'n n a0 p0,0 n', 'n a0 n a0 n p1,0 x0 d0 n n', 'n n a0 i0,0 z0 z0 d0 d0 n',
-    'n q0 q0 d0 d0 n', 'e', 'n d0 e n', 'n n d0 d0 e e n', 'n f0', 'n n d0 f0 n', 'n f0 d0 f0 e n', 'n s0 n s1 a0 a0 d0 n', 'n s0 n s1 a0 p0,0 i0,0 d0 n', 'n n n s0 s1 s2 a0 a0 i0,0 x0 a0 a0 d0 d0 n',
+    'n q0 q0 d0 d0 n', 'e', 'n d0 e n', 'n n d0 d0 e e n', 'n f0', 'n n d0 f0 n', 'n f0 d0 f0 e n', 'n a0 n a0 n a0 j0 n', 'n a0 n a0 d0 j1 k n', 'n a0 n d0 k n', 'k', 'n n a0 a0 x0 d0 k j0 k c', 'n s0 n s1 a0 a0 d0 n', 'n s0 n s1 a0 p0,0 i0,0 d0 n', 'n n n s0 s1 s2 a0 a0 i0,0 x0 a0 a0 d0 d0 n',
     'n n n a0 a0 a0 z0 z1 x0 d2 d0 d0 n',
 ]
 
@@ -47,7 +47,7 @@ def gen_ops(r, n, mode):
             w = ['n', 'd%d' % r.below(3)][j % 2] if x < 85 else 'n'
         elif mode == 3:
             w = ('n' if x < 22 else 'a%d' % r.below(4) if x < 40 else 'i%d,%d' % (r.below(5), r.below(4)) if x < 46 else 'p%d,%d' % (r.below(5), r.below(4)) if x < 54
-                 else 'x%d' % r.below(6) if x < 64 else 'z%d' % r.below(6) if x < 72 else 'r%d' % r.below(6) if x < 79 else 's%d' % r.below(4) if x < 84
+                 else 'x%d' % r.below(6) if x < 64 else 'z%d' % r.below(6) if x < 72 else 'r%d' % r.below(6) if x < 77 else 'j%d' % r.below(2) if x < 79 else 'k' if x < 80 else 's%d' % r.below(4) if x < 84
                  else 'd%d' % r.below(4) if x < 95 else 'c')
         elif mode == 4:
             w = 'n' if j < n // 2 else ('d%d' % r.below(16) if x < 90 else 'n')
@@ -238,6 +238,9 @@ def oracle_seq(case, out):
             det.discard(ids[0]); pend.add(ids[0]); ids = ids[:1]
         elif ev == 'X': tab.discard(ids[0]); det.add(ids[0])
         elif ev == 'R': tab.discard(ids[0])
+        elif ev == 'Q':
+            if not set(ids) <= tab: return 'harness bookkeeping: Remove(filter) removed rows that were not in the table', False
+            tab -= set(ids)
         elif ev == 'D' or ev == 'E':
             for r in ids:
                 if r not in det: return 'harness bookkeeping: destroyed a row that was not detached', False
